@@ -100,11 +100,15 @@ def on_nothing_written_edge(body, e, wcall):
         ok = (l == dl)
         if not ok:
             _, d = lib.resolve_copy(body, l)
-            if d is not None and d.kind == 'assign' and d.rv['k'] == 'discr' and d.rv['pl']['l'] == dl and not d.rv['pl']['p']:
-                ok = True
+            if d is not None and d.kind == 'assign' and d.rv['k'] == 'discr' and not d.rv['pl']['p']:
+                src, _d2 = lib.resolve_copy(body, d.rv['pl']['l'])
+                if d.rv['pl']['l'] == dl or src == dl:
+                    ok = True
         if not ok:
             continue
         zero = [bb for v, bb in t['cases'] if v == 0]
+        if not zero and [v for v, _bb in t['cases']] == [1]:
+            zero = [t['else']]      # `1 => Some arm, otherwise => None`
         if zero and body.edge_dominates((b, zero[0]), e.b):
             return True
     return False
